@@ -55,7 +55,9 @@ type verifC14FS struct {
 
 func (f *verifC14FS) rec(op, p string) { f.ops = append(f.ops, verifC14Op{op, p}) }
 
-func (f *verifC14FS) isPacked(p string) bool { return len(p) == len(packedRefsPath) && p == packedRefsPath }
+func (f *verifC14FS) isPacked(p string) bool {
+	return len(p) == len(packedRefsPath) && p == packedRefsPath
+}
 
 func (f *verifC14FS) isTmp(p string) bool {
 	return len(p) == len(tmpPackedRefsPrefix)+1 && p[:len(tmpPackedRefsPrefix)] == tmpPackedRefsPrefix
